@@ -17,12 +17,22 @@ Definition subcons (c : con) : list con :=
   | CRebuild c' _ | CDefault c' _ | CPadded _ c' _ | CAligned _ c' _ | CPointer _ c' | CPeek c' | COffsettedEnd _ c'
   | CRawCopy c' | CFixedSized _ c' | CNullTerminated c' _ _ _ _ | CNullStripped c' _ | CTransformed c' _ _ _ _
   | CRestreamed c' _ _ _ _ _ | CProcessXor _ c' | CProcessRotl _ _ c' | CChecksum c' _ _ | CLazy c' | CLazyArray _ c' => [c']
-  | CStruct cs | CSequence cs | CFocusedSeq _ cs | CUnion _ cs | CSelect cs | CLazyStruct cs => cs
+  | CFocusedSeq _ cs =>
+      (* the count field of a PrefixedArray is also parsed, and its element sized, directly under the macro's path (when it is
+         measured lazily) *)
+      match cs with [CRenamed _ (CRebuild lc _); CRenamed _ (CArray _ el)] => lc :: el :: cs | _ => cs end
+  | CStruct cs | CSequence cs | CUnion _ cs | CSelect cs | CLazyStruct cs => cs
   | CIfThenElse _ a b => [a; b]
   | CSwitch _ cases d => d :: map snd cases
   | CPrefixed lc c' _ => [lc; c']
   | _ => []
   end.
+
+Lemma in_subcons_focused sel cs c : In c cs -> In c (subcons (CFocusedSeq sel cs)).
+Proof.
+  intros H. cbn [subcons].
+  repeat match goal with |- In _ (match ?x with _ => _ end) => destruct x end; try exact H; right; right; exact H.
+Qed.
 
 (* the member names from a construct down to one of its sub-constructs *)
 Inductive chain : con -> path -> Prop :=
@@ -277,7 +287,7 @@ Proof.
   induction c using con_ind2; intros cx p; cbn [sizeof];
     try solve [repeat first [sk_ih | progress pk]].
   all: try solve [match goal with H : Forall _ ?cs |- okq (chain ?C) _ _ =>
-    apply okq_catch, okq_sum; apply (Forall_up Sz C cs Sz_mono); [intros c0 Hc0; cbn [subcons]; exact Hc0|exact H] end].
+    apply okq_catch, okq_sum; apply (Forall_up Sz C cs Sz_mono); [intros c0 Hc0; first [cbn [subcons]; exact Hc0|apply in_subcons_focused; exact Hc0]|exact H] end].
   - (* Switch *) apply okq_catch. apply okq_bind; [pk|intros k]. destruct (negb (hashable k)); [exact I|].
     assert (Hd : okq (chain (CSwitch a0 a1 c)) p (sizeof c cx p)) by (apply (okq_up _ c); [insub|apply IHc]).
     assert (Hcs : Forall (fun vc => Sz (chain (CSwitch a0 a1 c)) (snd vc)) a1).
@@ -307,7 +317,7 @@ Ltac pkm := repeat first [ pk_parse | progress pk
                          | match goal with |- okq _ _ (match bits2integer ?a ?b with _ => _ end) => destruct (bits2integer a b) end
                          | match goal with |- okq _ _ (match (if ?c then swapbytesinbits ?d else Some ?d) with _ => _ end) => destruct (if c then swapbytesinbits d else Some d) end ].
 
-Definition Pch2 (c : con) : Prop := Pq (chain c) c /\ LFok (fun l => Pq (chain l) l) c.
+Definition Pch2 (c : con) : Prop := Pq (chain c) c /\ LFok (fun l => Pq (chain l) l) c /\ RBok (fun l => Pq (chain l) l) c.
 
 Lemma chain_sub2 C c lc t : In c (subcons C) -> In lc (subcons c) -> chain lc t -> chain C t.
 Proof. intros H1 H2 H. apply (ch_sub C c); [exact H1|]. apply (ch_sub c lc); assumption. Qed.
@@ -324,13 +334,21 @@ Lemma asz_chain : forall c, LFok (fun l => Pq (chain l) l) c -> forall cx p s, o
 Proof.
   induction c; intros H cx p s; cbn [actualsize_with]; try apply sizeof_chain; cbn [LFok] in H;
     try (match goal with |- okq (chain ?C) _ (actualsize_with parse ?c' _ _ _) => apply (okq_up C c'); [cbn; tauto|apply IHc; exact H] end).
+  - (* FocusedSeq: the PrefixedArray shape *)
+    repeat first [ apply sizeof_chain | match goal with |- okq _ _ (match ?x with _ => _ end) => destruct x end ].
+    unfold counted_actualsize.
+    match goal with |- okq (chain ?C) _ (bind (parse ?lc _ _ _) _) =>
+      apply okq_bind; [apply (okq_up C lc); [cbn [subcons In]; tauto|apply H]|intros [lv s1]] end.
+    apply okq_bind; [destruct lv; exact I|intros ?].
+    match goal with |- okq (chain ?C) _ (bind (sizeof ?el _ _) _) =>
+      apply okq_bind; [apply (okq_up C el); [cbn [subcons In]; tauto|apply sizeof_chain]|intros; exact I] end.
   - (* Renamed *) apply okq_ren, IHc, H.
   - (* Prefixed *) apply okq_pa_chain, H.
 Qed.
 
 Lemma Pq3_of C c : In c (subcons C) -> Pch2 c -> Pq3 (chain C) c.
 Proof.
-  intros Hin [Hc HL]. split; [|split].
+  intros Hin (Hc & HL & _). split; [|split].
   - intros cx p s. apply (okq_up C c); [exact Hin|apply Hc].
   - intros cx p. apply (okq_up C c); [exact Hin|apply sizeof_chain].
   - intros cx p s. apply (okq_up C c); [exact Hin|apply asz_chain, HL].
@@ -338,19 +356,23 @@ Qed.
 
 Theorem parse_chain2 : forall c, Pch2 c.
 Proof.
-  induction c using con_ind2; (split; [|cbn [LFok];
+  induction c using con_ind2; (split; [|split; [cbn [LFok]|cbn [RBok]];
     first [ exact I
           | match goal with H : Pch2 ?l |- Pq (chain ?l) ?l => exact (proj1 H) end
-          | match goal with H : Pch2 ?c' |- LFok _ ?c' => exact (proj2 H) end ]]).
+          | match goal with H : Pch2 ?c' |- LFok _ ?c' => exact (proj1 (proj2 H)) end
+          | match goal with H : Pch2 ?c' |- match ?c' with _ => _ end => destruct c'; try exact I; exact (proj2 (proj2 H)) end
+          | match goal with H : Forall _ ?cs |- _ =>
+              repeat first [ exact I | match goal with |- match ?x with _ => _ end => destruct x end ];
+              inversion H as [|? ? H0 Ht]; subst; exact (proj2 (proj2 H0)) end ]]).
   all: try (match goal with H : Forall (fun c : con => Pch2 c) ?cs |- Pq (chain ?C) _ =>
-              assert (HF2 : Forall (Pq3 (chain C)) cs) by (rewrite Forall_forall in H |- *; intros c0 Hc0; apply Pq3_of; [cbn [subcons]; exact Hc0|apply H, Hc0]);
+              assert (HF2 : Forall (Pq3 (chain C)) cs) by (rewrite Forall_forall in H |- *; intros c0 Hc0; apply Pq3_of; [first [cbn [subcons]; exact Hc0|apply in_subcons_focused; exact Hc0]|apply H, Hc0]);
               assert (HF : Forall (Pq (chain C)) cs) by (eapply Forall_impl; [|exact HF2]; intros ? [? ?]; assumption); clear H; rename HF into H end).
   all: try (match goal with H : Forall (fun vc => Pch2 (snd vc)) ?cs |- Pq (chain ?C) _ =>
               assert (HF : Forall (fun vc => Pq (chain C) (snd vc)) cs) by
                 (rewrite Forall_forall in H |- *; intros vc Hin; apply (Pq_mono (chain (snd vc)));
                  [intros t Ht; apply (ch_sub C (snd vc)); [cbn [subcons In]; right; apply in_map, Hin|exact Ht]|apply (proj1 (H vc Hin))]);
               clear H; rename HF into H end).
-  all: repeat match goal with H : Pch2 _ |- _ => let A := fresh "Hok" in let B := fresh "IHl" in destruct H as [A B]; rename A into H end.
+  all: repeat match goal with H : Pch2 _ |- _ => let A := fresh "Hok" in let B := fresh "IHl" in let D := fresh "IHr" in destruct H as (A & B & D); rename A into H end.
   all: intros cx p s; cbn [parse].
   all: try solve [pkp].
   all: try solve [pkm].
@@ -391,14 +413,14 @@ Proof.
   all: try solve [ (* ProcessRotl *) apply okq_bind; [pk|intros a]; apply okq_bind; [pk|intros g]; destruct (g <? 1)%Z; [apply okq_raise|]; destruct (alloc_bound <? g)%Z; [exact I|]; destruct (iread_all s); match goal with |- context [rotate_left ?x ?y ?z] => destruct (rotate_left x y z) end; [|apply okq_raise]; apply okq_bind; [pk_parse|intros [v s2]; exact I] ].
   all: try solve [ (* Checksum *) apply okq_bind; [pk_parse|intros [h1 s1]]; apply okq_bind; [pk|intros d]; destruct d; try exact I; destruct (val_eqb _ _); [exact I|apply okq_raise] ].
   all: try solve [ (* Lazy *)
-      destruct (Pq3_of (CLazy c) c (or_introl eq_refl) (conj IHc IHl)) as (H1 & H2 & H3);
+      destruct (Pq3_of (CLazy c) c (or_introl eq_refl) (conj IHc (conj IHl IHr))) as (H1 & H2 & H3);
       pose proof (okq_actualsize _ c H2 H3 cx p s) as Ha; destruct (actualsize_with parse c cx p s) as [n|e q];
       [ apply okq_bind; [apply okq_iseek|intros [r s1]]; apply okq_bind; [apply okq_lazy_force; exact H1|intros [v s2]; exact I]
       | destruct e; try exact Ha; apply okq_bind; [apply okq_iseek|intros [r s0]; apply H1] ] ].
   all: try solve [ (* LazyStruct *) apply okq_bind; [apply okq_lazy_scan_struct; exact HF2|intros [[[[[i off] cx1] s'] offs] cache]];
       apply okq_bind; [apply okq_force_struct; exact H|intros; exact I] ].
   all: try solve [ (* LazyArray *)
-      destruct (Pq3_of (CLazyArray a0 c) c (or_introl eq_refl) (conj IHc IHl)) as (H1 & H2 & H3);
+      destruct (Pq3_of (CLazyArray a0 c) c (or_introl eq_refl) (conj IHc (conj IHl IHr))) as (H1 & H2 & H3);
       apply okq_bind; [pk|intros n]; destruct (n <? 0)%Z; [apply okq_raise|]; destruct (alloc_bound <? n)%Z; [exact I|];
       apply okq_bind; [apply okq_lazy_scan_array; [exact H1|apply okq_actualsize; assumption]|intros [[[[[i off] cx1] s'] offs] cache]];
       apply okq_bind; [apply okq_force_array; exact H1|intros; exact I] ].
@@ -429,7 +451,9 @@ Fixpoint chains (c : con) : list path :=
         | CRebuild c' _ | CDefault c' _ | CPadded _ c' _ | CAligned _ c' _ | CPointer _ c' | CPeek c' | COffsettedEnd _ c'
         | CRawCopy c' | CFixedSized _ c' | CNullTerminated c' _ _ _ _ | CNullStripped c' _ | CTransformed c' _ _ _ _
         | CRestreamed c' _ _ _ _ _ | CProcessXor _ c' | CProcessRotl _ _ c' | CChecksum c' _ _ | CLazy c' | CLazyArray _ c' => chains c'
-        | CStruct cs | CSequence cs | CFocusedSeq _ cs | CUnion _ cs | CSelect cs | CLazyStruct cs => flat_map chains cs
+        | CFocusedSeq _ cs =>
+            match cs with [CRenamed _ (CRebuild lc _); CRenamed _ (CArray _ el)] => chains lc ++ chains el | _ => [] end ++ flat_map chains cs
+        | CStruct cs | CSequence cs | CUnion _ cs | CSelect cs | CLazyStruct cs => flat_map chains cs
         | CIfThenElse _ a b => chains a ++ chains b
         | CSwitch _ cases d => chains d ++ flat_map (fun vc => chains (snd vc)) cases
         | CPrefixed lc c' _ => chains lc ++ chains c'
@@ -441,6 +465,10 @@ Proof.
   intros Hin Ht. destruct c; cbn [subcons In] in Hin; try contradiction; cbn [chains]; right;
     try (destruct Hin as [<-|[]]; exact Ht);
     try (apply in_flat_map; exists c'; split; assumption).
+  - (* FocusedSeq *) apply in_or_app.
+    assert (G : In c' cs -> In t (flat_map chains cs)) by (intros Hc; apply in_flat_map; exists c'; split; assumption).
+    repeat match type of Hin with In _ (match ?x with _ => _ end) => destruct x end; try (right; apply G; exact Hin).
+    destruct Hin as [<-|[<-|Hin]]; [left; apply in_or_app; left; exact Ht|left; apply in_or_app; right; exact Ht|right; apply G; exact Hin].
   - (* IfThenElse *) apply in_or_app. destruct Hin as [<-|[<-|[]]]; auto.
   - (* Switch *) apply in_or_app. destruct Hin as [<-|Hin]; [left; exact Ht|right].
     apply in_map_iff in Hin as (vc & <- & Hvc). apply in_flat_map. exists vc. split; assumption.
